@@ -10,7 +10,7 @@ both routes equals the sequential reference."""
 import random
 import sys
 
-from check_build import Scenario, call, canon, invoke
+from check_build import Scenario, call, canon, held_dispatch, invoke
 from common import use_repo
 import conc
 from conc import run_schedule
@@ -72,7 +72,7 @@ def one_run(sc, tags, mode, targs, routes, segments, probes, ref):
         ov.compile()
     fns = []
     for a, r in zip(targs, routes):
-        target = ov if r == "obj" or not hasattr(ov, "dispatch") else ov.dispatch
+        target = ov if r == "obj" or not hasattr(ov, "dispatch") else held_dispatch(ov)
 
         def f(_t=target, _p=probes[a]):
             return canon(invoke(_t, _p))
@@ -125,13 +125,24 @@ def explore(seed, n, opts):
         tags = list(range(k))
         probes = sc.probes()
         ref = reference(sc, tags, probes)
-        mode = rng.choice(opts.get("modes") or ["first", "first", "miss-equal", "miss-diff", "chain"])
+        mode = rng.choice(opts.get("modes") or ["first", "first", "miss-equal", "miss-diff", "miss-diff", "chain"])
         nthreads = 3 if rng.random() < 0.15 else 2
         if mode == "miss-equal":
             a = rng.randrange(len(probes))
             targs = [a] * nthreads
         else:
             targs = [rng.randrange(len(probes)) for _ in range(nthreads)]
+        if mode == "miss-diff" and rng.random() < 0.6:
+            # different but RELATED argument types (a class and one of its bases: candidates in common), the class with
+            # two bases first when there is one
+            rel = [(i, j) for i, ci in enumerate(sc.classes) for j, cj in enumerate(sc.classes) if i != j and issubclass(ci, cj)]
+            if rel:
+                rel.sort(key=lambda ij: -len(sc.classes[ij[0]].__bases__))
+                top = [ij for ij in rel if len(sc.classes[ij[0]].__bases__) == len(sc.classes[rel[0][0]].__bases__)]
+                i, j = rng.choice(top) if rng.random() < 0.7 else rng.choice(rel)
+                if rng.random() < 0.5:
+                    i, j = j, i
+                targs = [i, j] + ([rng.choice([i, j])] if nthreads == 3 else [])
         # arguments whose own method exists but whose chain of call_next falls off the end: the continuation lookup
         # then goes through `__missing__` and reads `all[key]` (a path that hits no cached entry)
         falls = [i for i in range(k) if ref[i][0] == "error"]
@@ -150,6 +161,13 @@ def explore(seed, n, opts):
         wh = (conc.LAST.get("wheres") or [[]])[0]
         # every position inside the publication of a resolution and inside the hand-over of a build, plus a sample
         hot = [i for i, f in enumerate(wh) if f in ("resolve", "__missing__", "ensure_compiled", "compile", "first_entry")]
+        # ... and a sample of the positions inside the ranking of the candidates of a cache miss (`mro` and what it calls)
+        rank_pos = [i for i, f in enumerate(wh) if f in ("mro", "_pull", "dominates", "sort_key")]
+        if rank_pos and not opts.get("exhaustive"):
+            hot += rng.sample(rank_pos, min(len(rank_pos), 2 * per))
+            # every point at which control passes from one function of the ranking to another
+            hot += [i for i in rank_pos if i > 0 and wh[i - 1] != wh[i]] + [i + 1 for i in rank_pos if i + 1 < len(wh) and wh[i + 1] != wh[i]]
+            hot = sorted(set(hot))
         # the hand-over of a build: the last events of `_compile` / `compile` / `ensure_compiled` and whatever they call
         # just before (helpers that install the generated entry point, whatever their names)
         ends = [i for i, f in enumerate(wh) if f in ("_compile", "compile", "ensure_compiled")]
